@@ -67,8 +67,8 @@ CHECKS = {
     "C01": dict(
         category="model_checking",
         engine="E1/E2 Layer B cluster (choice-point exploration by re-execution)",
-        technique="stateless exploration of a real in-process cluster: exhaustive operation histories x deviation-bounded enumeration of every environment choice point (per-RPC deliver/lose request/lose reply incl. the requests of mid-history repair exchanges, extra flush/repair/restart/61-minute-jump events, a node unreachable until a chosen moment, late flushes, closing order) by re-execution from choice prefixes; plus all await-point interleavings (preemption-bounded) of two concurrent client operations",
-        text="Real nodes (Clock, KeyspaceGroup + actors, in-process RPC services, selector, distributor behind a flush gate, poller one cycle at a time, public ReplicatedStoreHandle) are driven through every history of put/del/put_many/del_many (levels None/All, One in thorough) on 2 keys: quick = N=2 with 2 ops <=2 deviations and 3 ops <=1, N=3 2 ops <=1, MemStore variant, lagging-node block, clock-skew block, faulty-repair blocks (1 op <=4, 2 ops <=2 deviations), 61-minute-jump block, two scripted 'sharp driver' skeletons (a node misses the first operation, 61 minutes pass, it receives the second one, restarts or not) with <=1 deviation on top, concurrency block (two operations, or a repair cycle racing with an operation, fine-grained) with <=3 preemptions (~1 M executions, 13 s); thorough = N=2 up to 4 ops / 3 deviations, N=3 up to 3 ops, every special block deeper, <=5 preemptions. After the closing exchanges (every ordered pair, order itself a choice) and again after late batch flushes all nodes must return the same live documents, equal per id to the locally issued write with the greatest stamp (from the issuers' storage logs); set/store agreement (C02) is a side condition on every node.",
+        technique="stateless exploration of a real in-process cluster: exhaustive operation histories x deviation-bounded enumeration of every environment choice point (per-RPC deliver/lose request/lose reply incl. the requests of mid-history repair exchanges, extra flush/repair/restart events and one 55-minute jump (the history stays within one forgiveness period), a node unreachable until a chosen moment, late flushes, closing order) by re-execution from choice prefixes; plus all await-point interleavings (preemption-bounded) of two concurrent client operations",
+        text="Real nodes (Clock, KeyspaceGroup + actors, in-process RPC services, selector, distributor behind a flush gate, poller one cycle at a time, public ReplicatedStoreHandle) are driven through every history of put/del/put_many/del_many (levels None/All, One in thorough) on 2 keys: quick = N=2 with 2 ops <=2 deviations and 3 ops <=1, N=3 2 ops <=1, MemStore variant, lagging-node block, clock-skew block, faulty-repair blocks (1 op <=4, 2 ops <=2 deviations), 55-minute-jump block, two scripted 'sharp driver' skeletons (a node misses the first operation, 55 minutes pass, it receives the second one, restarts or not) with <=1 deviation on top, concurrency block (two operations, or a repair cycle racing with an operation, fine-grained) with <=3 preemptions (~1 M executions, 13 s); thorough = N=2 up to 4 ops / 3 deviations, N=3 up to 3 ops, every special block deeper, <=5 preemptions. After the closing exchanges (every ordered pair, order itself a choice) and again after late batch flushes all nodes must return the same live documents, equal per id to the locally issued write with the greatest stamp (from the issuers' storage logs); set/store agreement (C02) is a side condition on every node.",
         note="Bounded: 2-3 nodes, 2 keys, <=4 operations, <=3 deviations; fixed membership; repair requests are faulted in dedicated N=2 blocks only; the closing exchanges always complete. In-process transport instead of HTTP/2.",
         design="DESIGN.md section 3, C01",
     ),
@@ -108,7 +108,7 @@ CHECKS = {
         category="fault_enumeration",
         engine="E1 by replay + crash points, Layer B single node",
         technique="exhaustive crash-point enumeration over request histories on the real keyspace group/actors: after every history and inside every possible next request after each document written by storage; restart = fresh KeyspaceGroup + real load_states_from_storage on the same store, compared with the store's rows",
-        text="Histories over ~35 (quick) / ~65 (thorough) requests on two keyspaces (single and bulk, two ids sharing one stamp as put_many/del_many produce, same id twice, both sources, purge, transient storage failures) are enumerated breadth-first to depth 4/5 (state cap 30 k / 300 k, a cap hit is reported with the depth completed) and deduplicated by the node's whole state. At every crash point the rebuilt sets must hold exactly the live ids, tombstones and stamps storage holds for every keyspace storage lists, keyspaces with rows must be listed, the restarted node must keep agreeing with its store after one more request, every acknowledged request must be durable in storage (the newest acknowledged mutation per id, at that stamp or newer, unless behind the cut-off), and between requests the rebuilt set must accept every pool operation the pre-restart set accepted (a restart must not make the node refuse repair traffic). Thorough adds file-backed SQLite and LMDB with a real stop (runtime dropped, LMDB worker thread joined, environment closed) and reopen; in-request crash points wait for the storage wrapper's park signal because these backends write on their own thread.",
+        text="Histories over ~35 (quick) / ~65 (thorough) requests on two keyspaces (single and bulk, two ids sharing one stamp as put_many/del_many produce, same id twice, both sources, purge, transient storage failures) are enumerated breadth-first to depth 4/5 (state cap 30 k / 300 k, a cap hit is reported with the depth completed) and deduplicated by the node's whole state. At every crash point the rebuilt sets must hold exactly the live ids, tombstones and stamps storage holds for every keyspace storage lists, keyspaces with rows must be listed, the restarted node must keep agreeing with its store after one more request, every acknowledged request must be durable in storage (the newest acknowledged mutation per id, at that stamp or newer, unless behind the cut-off), and between requests the rebuilt set must accept every pool operation the pre-restart set accepted, for probes within one hour of everything the node has seen (a restart must not make the node refuse repair traffic inside the forgiveness period). Thorough adds file-backed SQLite and LMDB with a real stop (runtime dropped, LMDB worker thread joined, environment closed) and reopen; in-request crash points wait for the storage wrapper's park signal because these backends write on their own thread.",
         note="Crash granularity = storage call boundaries and 'storage wrote k documents, set not yet updated'. Torn writes inside SQLite/LMDB are not modelled.",
         design="DESIGN.md section 3, C07",
     ),
